@@ -220,6 +220,13 @@ def check_sequence(case, ctx):
     Wr = as_real_array(ctx, out.value, (len(W) - 1, 3), route=r, what="angular velocities")
     if Wr is None:
         return
+    # the same sequence stored scalar-last, non-normalised (versors=False) and as a one-step sequence: the recovered rates must be the same
+    QS = np.c_[Q[:, 1:], Q[:, 0]]
+    alt = call(lambda: (np.asarray(ahrs.QuaternionArray(QS.copy(), order="S").angular_velocities(dt), float),
+                        np.asarray(ahrs.QuaternionArray(Q[:2].copy()).angular_velocities(dt), float)))
+    if ctx.returned(alt, clause="no-exception[order=S / two rows]", route=r):
+        ctx.le("angular_velocities of the scalar-last copy of the sequence = those of the sequence", float(np.abs(alt.value[0] - Wr).max() / max(np.abs(Wr).max(), 1e-300)), 1e-12, route=r)
+        ctx.le("angular_velocities of the first two rows = first row of the full result", float(np.abs(alt.value[1].reshape(-1) - Wr[0]).max() / max(np.abs(Wr).max(), 1e-300)), 1e-12, route=r)
     x = np.linalg.norm(W[1:], axis=1) * dt
     ctx.le("recovered rates equal the true rates to first order (error / (x^3/12 + 1e-12))",
            float((np.linalg.norm(Wr - W[1:], axis=1) * dt / (x ** 3 / 12 + 1e-12)).max()), 1.0, {"max_x": float(x.max())}, route=r)
